@@ -19,33 +19,43 @@ structure Ran (α : Type) where
   res : R α
   cpu : Cpu
   trace : List Insn
+  /-- Ghost log: observation points placed by instrumented closures (`M.mark`), in order.
+  Not instructions; wrappers of the crate never write it. -/
+  marks : List Nat
 
 /-- Computations over the abstract machine. -/
 def M (α : Type) : Type := Cpu → Ran α
 
 namespace M
 
-def pure {α} (a : α) : M α := fun c => ⟨.ok a, c, []⟩
+def pure {α} (a : α) : M α := fun c => ⟨.ok a, c, [], []⟩
 
 def bind {α β} (x : M α) (f : α → M β) : M β := fun c =>
   match x c with
-  | ⟨.ok a, c1, t1⟩ =>
+  | ⟨.ok a, c1, t1, m1⟩ =>
     match f a c1 with
-    | ⟨r, c2, t2⟩ => ⟨r, c2, t1 ++ t2⟩
-  | ⟨.panic, c1, t1⟩ => ⟨.panic, c1, t1⟩
+    | ⟨r, c2, t2, m2⟩ => ⟨r, c2, t1 ++ t2, m1 ++ m2⟩
+  | ⟨.panic, c1, t1, m1⟩ => ⟨.panic, c1, t1, m1⟩
 
 instance : Monad M where
   pure := M.pure
   bind := M.bind
 
 /-- A Rust panic (`unwrap` on `None`/`Err`, failed `assert!`, overflow check). -/
-def panic {α} : M α := fun c => ⟨.panic, c, []⟩
+def panic {α} : M α := fun c => ⟨.panic, c, [], []⟩
 
 /-- Lift a panicking pure computation. -/
-def ofR {α} (r : R α) : M α := fun c => ⟨r, c, []⟩
+def ofR {α} (r : R α) : M α := fun c => ⟨r, c, [], []⟩
 
 /-- Execute one instruction. -/
-def insn (i : Insn) : M Out := fun c => ⟨.ok (step c i).2, (step c i).1, [i]⟩
+def insn (i : Insn) : M Out := fun c => ⟨.ok (step c i).2, (step c i).1, [i], []⟩
+
+/-- Ghost: the current register file (used only by instrumented test closures, never by a
+wrapper's model). -/
+def get : M Cpu := fun c => ⟨.ok c, c, [], []⟩
+
+/-- Ghost: record an observation. -/
+def mark (n : Nat) : M Unit := fun c => ⟨.ok (), c, [], [n]⟩
 
 /-- `assert!(b)`. -/
 def assert (b : Bool) : M Unit := if b then M.pure () else M.panic
